@@ -73,6 +73,26 @@ CLAIMED = {
     note="Trusted: Coq kernel+vm_compute; hand model; harness (generator, FakeAdwin); CPython str.upper/lower on ASCII, re on 7 fixed patterns (modelled as scanners), os.path, int(). "
          "ASCII identifiers, acyclic includes, values are opaque atoms.",
     technique="Coq invariant and induction proofs over symbol lists; correspondence by vm_compute with a simulated ADwin"),
+ "C14": dict(category="proof", design_ref="7 (C14)",
+    text="14 Coq theorems (all closed) generic over every string, default dictionary, well-formed parser table and behaviour of int()/float()/host predicates: faithfulness of "
+         "the table-driven parser and of create_transport's dispatch, rejection of missing-required / unknown keyword / untypable value / repeated '=', bracketed (IPv6) hosts, "
+         "USBTMC resource round trip; plus 12 obligations re-proved by vm_compute on every run about the six parser tables REGENERATED from transport.py by a fail-closed ast "
+         "translator. Totality of the real code (no exception class other than the descriptor error escapes) is established by the differential run: ~5.4k grammar-built, "
+         "near-miss and arbitrary descriptors per quick run against real create_transport, the six real parsers and fresh parsers over random tables.",
+    note="Trusted: Coq kernel+vm_compute; hand model of the regex tokeniser/parser/constructor validation; the ast translator (cross-checked against the live table objects); "
+         "int(), float(), host syntax and inet_pton are not modelled (real answers are fed to the model); non-Windows branch only. Seven escapes found were repaired by fix: commits; "
+         "two USBTMC resource round-trip findings (serial numbers containing ':' or '=') remain open known findings.",
+    technique="generic table-driven Coq theorems + translator-fed reflection + differential fuzzing"),
+ "C15": dict(category="proof", design_ref="7 (C15)",
+    text="42 Coq theorems (all closed) over executable models of the five codecs: Interbus round trip incl. reserved bytes in data and CRC, framing, escape inverse, CRC append, "
+         "rejection/soundness, detection of every single-byte corruption, address matching and bounded retries; USBTMC write_raw reassembled exactly by a reference device for every "
+         "length, transfer size and tag, tag range/wrap, read_raw reassembly for every conforming split; T2 batch-split invariance and the mod-2^64 timestamp formula; SCPI block round "
+         "trip/soundness, decimal codec, ask terminator handling; APT header round trips and message-id check. Tie: differential execution of the real code with recording transports / "
+         "fake bulk endpoints (3.5k cases quick, 76k thorough) plus an independent conforming-device oracle.",
+    note="Trusted: Coq kernel+vm_compute incl. three 65536-state and one 255-value CRC sweeps lifted by forallb_forall (finite domains, bounds stated); hand models; harness stubs; numpy "
+         "uint64 arithmetic and ctypes packed layout assumed and compared. USBTMC quirk flags off; T3 outside; read_raw with num>0 and APT field-by-field reinterpretation are checked by "
+         "correspondence/oracle only.",
+    technique="executable Gallina codecs, induction and round-trip/soundness proofs, finite CRC sweeps, differential testing"),
 }
 
 REASONS = {}
